@@ -266,7 +266,9 @@ class Engine:
                 continue
             if k in ("mk_group", "mk_object", "reopen", "gc", "listing", "open_again"):
                 avail.append((k, w))
-            elif k in ("add_data", "comment", "add_file") and objs:
+            elif k in ("add_data", "comment", "add_file", "edit_vertices") and objs:
+                avail.append((k, w))
+            elif k == "remove_many" and len(objs) + len(grps) >= 2:
                 avail.append((k, w))
             elif k in ("set_values",) and any(d.dkind in VALUE_KINDS for d in data):
                 avail.append((k, w))
@@ -379,6 +381,65 @@ class Engine:
         fp["any_type"] = True
         ent.values = spec["values"]
         d.values = canon(exp)
+
+    def op_edit_vertices(self, op):
+        """Move an object's vertices: by assigning a new array, or by the read / edit-in-place / assign-back idiom."""
+        objs = [o for o in self.model.of_kind("object") if o.cls in ("Points", "Curve", "Surface", "IntegratorPoints", "AirborneMagnetics", "NeighbourhoodSurface")]
+        if not objs:
+            raise ExpectedRefusal("no vertex object")
+        o = self.rng.choice(objs)
+        obj = self.ent(o.uid)
+        how = self.rng.choice(["new-array", "in-place"])
+        op.update(cls=o.cls, target=o.uid, how=how)
+        self.last_footprint["content"].add(path_of(o))
+        if how == "in-place":
+            v = obj.vertices
+            v[:, 2] += 7.0
+            obj.vertices = v
+        else:
+            obj.vertices = np.asarray(obj.vertices) + np.array([0.0, 3.0, 0.0])
+        self.rec.see("vertex-edits:" + how)
+
+    def op_remove_many(self, op):
+        """One parent.remove_children call with several children, of different kinds where possible."""
+        parents = [g for g in self.model.of_kind("group") + [self.model.nodes[self.model.root]] if len([c for c in self.model.children(g.uid) if self.model.nodes[c].dkind != "auto"]) >= 2]
+        if not parents:
+            raise ExpectedRefusal("no parent with two children")
+        g = self.rng.choice(parents)
+        kids = [c for c in self.model.children(g.uid) if self.model.nodes[c].dkind != "auto"]
+        by_kind = {}
+        for c in kids:
+            by_kind.setdefault(self.model.nodes[c].kind, []).append(c)
+        chosen = [self.rng.choice(v) for v in by_kind.values()]
+        if len(chosen) < 2:
+            chosen = self.rng.sample(kids, 2)
+        self.rng.shuffle(chosen)
+        victims = []
+        for c in chosen:
+            sub = self.model.subtree(c)
+            if any(not self.model.nodes[v].flags.get("allow_delete", True) for v in sub):
+                raise ExpectedRefusal("protected member")
+            victims += sub
+        op.update(cls=g.cls, target=g.uid, via="parent", removed_children=len(chosen), kinds=sorted({self.model.nodes[c].kind for c in chosen}), victims=len(victims))
+        op["op"] = "remove"
+        fp = self.last_footprint
+        fp["delete"].update(path_of(self.model.nodes[v]) for v in victims)
+        fp["links"].add(path_of(g) if g.uid != self.model.root else "Groups/" + br(g.uid))
+        fp["any_type"] = True
+        ents = [self.ent(c) for c in chosen]
+        parent = self.ent(g.uid)
+        for v in victims:
+            self.refs.pop(v, None)
+        parent.remove_children(ents)
+        del ents
+        for v in victims:
+            vn = self.model.nodes.pop(v)
+            self.model.removed.add(v)
+            self.pending_victims.add(path_of(vn))
+            self.parent_removed.add(path_of(vn))
+        op["removed"] = victims
+        op["target"] = chosen[0]
+        self.rec.see("multi-child-removals:" + "+".join(op["kinds"]))
 
     def pick_any(self, kinds=("object", "group", "data")):
         if self.force_kinds:
@@ -920,6 +981,8 @@ DEFAULT_WEIGHTS = {
     "dup_uid": 0.0,
     "remove_protected": 0.0,
     "remove_partial": 0.0,
+    "edit_vertices": 0.8,
+    "remove_many": 0.5,
     "copy_out": 0.0,
 }
 
